@@ -16,7 +16,7 @@ import (
 
 func init() {
 	core.Register(&core.Property{
-		ID: "C20",
+		ID:   "C20",
 		Rule: "GPS: for each of the 18 leap seconds every instant L+{every second -40s..+40s, -1s-1ns,-1s,-1s+1ns,-500ms,-1ns,0,+1ns} and the corresponding GPS durations, plus seeded random instants 1980-01-06..2100 at ns resolution (quick 50k, thorough 2M), checked against an independent leap table (offset = number of insertions at or before the instant), for strict monotonicity on the sorted sample and for both round trips. Airtime: SF 5..12 x BW {125,250,500,812,1625} kHz x payload 0..255 x CR 1..4 x header x LDRO x preamble {0,8,64} (thorough: every preamble 0..64 = complete grid) against the AN1200.13 formula in exact rational arithmetic; symbol count exact, durations within the documented integer-ns truncation, monotone in payload. EIRP: nextafter neighbourhoods of the 16 table entries + 1M seeded float32 >= 8 (thorough: every float32 bit pattern from 8.0 to MaxFloat32) and all 256 index bytes. Distinct = (leap index, offset class) / (SF,BW,CR,H,DE,preamble) / EIRP index.",
 		Assumptions: []string{
 			"GPS-UTC leap seconds: the 18 IERS insertions 1981-07-01 .. 2017-01-01 (Bulletin C); none announced after 2017-01-01 for the modelled range",
